@@ -130,6 +130,10 @@ def judge_body(facts, b, pre, fidx):
                     l1 = l1[2]
                 if (is_call(p1, "as_ptr") or is_call(p1, "as_mut_ptr")) and is_call(l1, "len") and _root(p1[2][0]) == _root(l1[2][0]):
                     continue
+            if isinstance(whole, tuple) and whole and whole[0] == "call" and len(whole[2]) == 0 and "len" not in flds:
+                # an empty handle made by a constructor without inputs (`Bytes::new()`) and pointed somewhere: it shows no bytes before and after
+                if constructs_empty(facts, whole):
+                    continue
             goals.append((L0, L1, off, P1, "handle %s" % fmt_expr(canon(sp.place({"l": l, "p": list(proj)}, first)))[:40]))
         rels = sp.path_relations()
         exprs = [x for g in goals for x in g[:3] if isinstance(x, tuple)] + [x for r in rels for x in r[1:3] if isinstance(x, tuple)]
@@ -148,6 +152,28 @@ def judge_body(facts, b, pre, fidx):
         if bad:
             break
     return bad, n_paths
+
+
+def constructs_empty(facts, e, depth=0):
+    """the call builds a handle with len == 0 (`Bytes::new()`, i.e. `from_static(&[])`): decided from the constructors' return expressions"""
+    from .flow import return_expr, subst_params
+    if depth > 3 or not (isinstance(e, tuple) and e and e[0] == "call"):
+        return False
+    cands = facts.by_id.get(e[1], [])
+    if len(cands) != 1 or cands[0].arg_count != len(e[2]):
+        return False
+    re_ = canon(subst_params(return_expr(cands[0], facts, inline=False), e[2])) if e[2] else canon(return_expr(cands[0], facts, inline=False))
+    if isinstance(re_, tuple) and re_ and re_[0] == "agg" and isinstance(re_[1], tuple) and len(re_[1]) > 2 and "len" in re_[1][2]:
+        ln = canon(re_[2][list(re_[1][2]).index("len")])
+        if ln == ("const", 0):
+            return True
+        if is_call(ln, "len") and len(ln[2]) == 1:
+            x = ln[2][0]
+            while isinstance(x, tuple) and x and x[0] in ("ref", "deref", "cast"):
+                x = x[2] if x[0] == "cast" else x[1]
+            return isinstance(x, tuple) and x and x[0] == "agg" and x[1] == "array" and len(x[2]) == 0
+        return False
+    return constructs_empty(facts, re_, depth + 1)
 
 
 def run(facts):
